@@ -141,10 +141,52 @@ def level_sets():
     return S
 
 
+def random_level(rng):
+    """a generated difficulty: hits / one long note per column on distinct (measure, slot) positions, 0-3 tempo events, packages in random file order"""
+    divs = (1, 2, 3, 4, 6, 8, 12, 16, 192)
+    pk = []
+    names = iter("abc")
+    for _ in range(rng.randint(0, 3)):
+        n = rng.choice(divs)
+        evs = [None] * n
+        evs[rng.randrange(n)] = ("bpm", next(names))
+        pk.append((rng.randint(0, 5), 1, evs))
+    for c in rng.sample(range(7), rng.randint(1, 4)):
+        if rng.random() < 0.4:  # a long note: head and tail in different packages of the column, tail strictly later
+            m0 = rng.randint(0, 3)
+            n0, n1 = rng.choice(divs), rng.choice(divs)
+            e0, e1 = [None] * n0, [None] * n1
+            e0[rng.randrange(n0)] = N("head", rng.randint(0, 15), rng.randint(0, 15), rng.choice((1, 0x8001)))
+            e1[rng.randrange(n1)] = N("tail")
+            pk += [(m0, 2 + c, e0), (m0 + rng.randint(1, 2), 2 + c, e1)]
+        else:
+            for m in rng.sample(range(6), rng.randint(1, 2)):
+                n = rng.choice(divs)
+                evs = [None] * n
+                for j in rng.sample(range(n), min(n, rng.randint(1, 2))):
+                    evs[j] = N("hit", rng.randint(0, 15), rng.randint(0, 15), rng.choice((1, 7, 0xFFFF)))
+                pk.append((m, 2 + c, evs))
+    rng.shuffle(pk)
+    # (a long note's head package precedes its tail package in the file - the reader pairs them in file order, and
+    # files list packages by measure; any other interleaving is free)
+    for c in range(2, 9):
+        idx = [i for i, p_ in enumerate(pk) if p_[1] == c and any(e is not None and e[1] in ("head", "tail") for e in p_[2])]
+        if len(idx) == 2 and pk[idx[0]][0] > pk[idx[1]][0]:
+            pk[idx[0]], pk[idx[1]] = pk[idx[1]], pk[idx[0]]
+    return pk
+
+
 def obligations(tier, seed):
     quick = tier == "quick"
     obs = []
     S = level_sets()
+    import random
+
+    rng = random.Random(1000 + seed)
+    for k in range(4 if quick else 60):
+        lv = [random_level(rng) for _ in range(3)]
+        obs.append(Obligation("C07/read/generated%d" % k, partial(ob_read, lv),
+                              bound="generated OJN (seed %d): per difficulty up to 3 tempo events, hits and long notes on up to 4 columns, package sizes 1..192, random package order: %r" % (seed, lv)))
     names = list(S)
     for i, n in enumerate(names):
         others = [names[(i + 3) % len(names)], names[(i + 7) % len(names)]]
@@ -152,6 +194,16 @@ def obligations(tier, seed):
                               bound="OJN with difficulties %s / %s / %s; header tempo and every tempo event symbolic; 300-byte header with a distinct value per field" % (n, others[0], others[1])))
         obs.append(Obligation("C07/read/%s/reversed-packages" % n, partial(ob_read, [list(reversed(S[n])), [], S[others[0]]]),
                               bound="same packages in reverse file order (difficulty %s)" % n)) if not any(e is not None and e[0] == "note" and e[1] != "hit" for _m, _c, evs in S[n] for e in evs) else None
+    if not quick:  # every package set as the first, second and third difficulty; every file order of the small sets
+        for i, n in enumerate(names):
+            for pos in (1, 2):
+                lv = [S[names[(i + 5) % len(names)]], S[names[(i + 9) % len(names)]]]
+                lv.insert(pos, S[n])
+                obs.append(Obligation("C07/read/%s/as-difficulty%d" % (n, pos), partial(ob_read, lv), bound="package set %s as difficulty %d" % (n, pos)))
+            if 1 < len(S[n]) <= 4 and not any(e is not None and e[0] == "note" and e[1] != "hit" for _m, _c, evs in S[n] for e in evs):
+                for pi, perm in enumerate(itertools.permutations(range(len(S[n])))):
+                    if pi:
+                        obs.append(Obligation("C07/read/%s/order%d" % (n, pi), partial(ob_read, [[S[n][j] for j in perm], [], []]), bound="packages of %s in file order %s" % (n, perm)))
     obs.append(Obligation("C07/read/full-width-header-strings", partial(ob_read, [S["one-tempo-mid"], [], []], header="full-width-strings"),
                           bound="title/artist/noter/ojm fields filled to their full 64/32 bytes (no terminating NUL)"))
     return obs
